@@ -5,7 +5,7 @@ from __future__ import annotations
 
 import ast
 
-from ..absval import Obj, Sym
+from ..absval import Obj, Sym, Unknown
 from ..model import AnchorMissing, Undecided, norm
 from ..report import Ctx
 from ..variants import Variant
@@ -21,6 +21,63 @@ INFO = {
 }
 
 
+def _check_pipeline_run(ctx: Ctx, prog, f, base, out, it, pair, cls, want, result_all):
+    if out.kind != "return":
+        ctx.violated("R01.2", f, out.node, base, f"pipeline does not return a result: {out.kind} {out.exc}")
+        return
+    stages = it.root.stages
+    names = [s[0] for s in stages]
+    w = want if result_all else [x for x in want if x != "calculate_all"]
+    ctx.decide("R01.2", f, f.node, base + ":stages", f"stages run in the order {w}", names == w, {"got": names})
+    by = {s[0]: s for s in stages}
+    # crop from both arrays, applied to the copies handed to the stages
+    if "crop" in by:
+        cargs = list(by["crop"][1]) + list(by["crop"][2].values())
+        sides = sorted(a.side for a in cargs if isinstance(a, AArr))
+        ctx.decide("R01.2", f, by["crop"][3], base + ":crop", "the whole-pair crop is computed from both the prediction and the reference", sides == ["PRED", "REF"], {"from": sides})
+    first = next((s for s in stages if s[0] in ("approximate", "match", "evaluate")), None)
+    if first:
+        p0 = first[1][0] if first[1] else None
+        ok = isinstance(p0, Obj) and p0.cls.name == cls
+        det = {}
+        if ok:
+            pa, ra = p0.attrs.get("_prediction_arr"), p0.attrs.get("_reference_arr")
+            ok = isinstance(pa, AArr) and isinstance(ra, AArr) and pa.side == "PRED" and ra.side == "REF" and getattr(pa, "cropped", False) and getattr(ra, "cropped", False)
+            det = {"prediction": repr(pa), "reference": repr(ra)}
+        ctx.decide("R01.2", f, first[3], base + ":first-stage-input", "the first stage receives the cropped input pair, uncrossed", ok, det)
+    # chain: each stage receives the output of its predecessor
+    chain = [s for s in stages if s[0] in ("approximate", "match", "evaluate")]
+    for prev, cur in zip(chain, chain[1:]):
+        p = cur[1][0] if cur[1] else None
+        tag = {"approximate": "approximated", "match": "matched"}[prev[0]]
+        ok = isinstance(p, Obj) and getattr(p.attrs.get("_prediction_arr"), "stage", None) == tag
+        ctx.decide("R01.2", f, cur[3], base + f":{cur[0]}-input", f"{cur[0]} receives the pair produced by {prev[0]}", ok, None)
+    if "approximate" in by:
+        ctx.decide("R01.2", f, by["approximate"][3], base + ":approximator", "the configured instance approximator is used", any(isinstance(a, Obj) and a.attrs.get("_tag") == "APPROX" for a in by["approximate"][1]), None, nontrivial=False)
+    if "match" in by:
+        ctx.decide("R01.2", f, by["match"][3], base + ":matcher", "the configured instance matcher is used", any(isinstance(a, Obj) and a.attrs.get("_tag") == "MATCHER" for a in by["match"][1]), None, nontrivial=False)
+    if "evaluate" in by:
+        kw = dict(by["evaluate"][2])
+        ev = prog.func("instance_evaluator:evaluate_matched_instance")
+        for i, a in enumerate(by["evaluate"][1]):
+            kw[ev.call_params[i].name] = a
+        ctx.decide("R01.2", f, by["evaluate"][3], base + ":evaluate:metrics", "instance evaluation receives the instance metrics", kw.get("eval_metrics") is it.root.P_instance_metrics, {"got": repr(kw.get("eval_metrics"))[:80]})
+        ctx.decide("R01.2", f, by["evaluate"][3], base + ":evaluate:decision", "instance evaluation receives the decision metric and threshold", kw.get("decision_metric") == Sym("P_decision_metric") and kw.get("decision_threshold") == Sym("P_decision_threshold"), {"metric": repr(kw.get("decision_metric")), "threshold": repr(kw.get("decision_threshold"))})
+    if "result" in by:
+        kw = dict(by["result"][2])
+        rinit = prog.cls("panoptica_result:PanopticaResult").lookup("__init__")
+        for i, a in enumerate(by["result"][1]):
+            kw[rinit.call_params[i].name] = a
+        want_kw = {"reference_arr": Sym("E_REF"), "prediction_arr": Sym("E_PRED"), "num_pred_instances": Sym("E_NPRED"), "num_ref_instances": Sym("E_NREF"), "tp": Sym("E_TP"), "list_metrics": Sym("E_LISTS"), "edge_case_handler": Sym("P_edge_case_handler")}
+        for k, v in want_kw.items():
+            ctx.decide("R01.2", f, by["result"][3], base + ":result:" + k, f"result field {k} is the evaluated pair's / configuration's {k}", kw.get(k) == v, {"got": repr(kw.get(k))}, nontrivial=k in ("reference_arr", "prediction_arr", "num_pred_instances", "num_ref_instances"))
+        ctx.decide("R01.2", f, by["result"][3], base + ":result:global_metrics", "the result receives the global metric selection", kw.get("global_metrics") is it.root.P_global_metrics, None)
+    rv = out.value
+    ctx.decide("R01.2", f, out.node, base + ":return", "the pipeline returns (result, intermediate steps)", isinstance(rv, tuple) and len(rv) == 2 and isinstance(rv[0], Obj) and rv[0].attrs.get("_tag") == "RESULT", {"got": repr(rv)[:120]}, nontrivial=False)
+    bad = [(n, b) for (n, b, idx, v, fresh) in it.root.stores if not fresh]
+    ctx.decide("R01.2", f, f.node, base + ":no-mutation", "no in-place store reaches the input arrays", not bad, None, nontrivial=False)
+
+
 def check_pipeline(ctx: Ctx):
     prog = ctx.prog
     want_stages = {
@@ -28,68 +85,23 @@ def check_pipeline(ctx: Ctx):
         "UnmatchedInstancePair": ["crop", "match", "evaluate", "result", "calculate_all"],
         "MatchedInstancePair": ["crop", "evaluate", "result", "calculate_all"],
     }
+    mbase = prog.cls("instance_matcher:InstanceMatchingAlgorithm")
+    abase = prog.cls("instance_approximator:InstanceApproximator")
+    stage_classes = [(None, None)] + [(m, None) for m in sorted(mbase.all_subclasses(), key=lambda c: c.qual)] + [(None, a) for a in sorted(abase.all_subclasses(), key=lambda c: c.qual)]
     for cls, want in want_stages.items():
-        for result_all in (True, False):
-            f, runs = run_pipeline(prog, cls, result_all=result_all)
-            base = f"{f.qual}:input={cls},result_all={result_all}"
-            if len(runs) != 1 or runs[0][0].decisions:
-                ctx.undecided("R01.2", f, f.node, base, f"pipeline splits on {[norm(d[0]) for o, _ in runs for d in o.decisions if isinstance(d[0], ast.AST)][:3]}")
-                continue
-            out, (it, pair) = runs[0]
-            if out.kind != "return":
-                ctx.violated("R01.2", f, out.node, base, f"pipeline does not return a result: {out.kind} {out.exc}")
-                continue
-            stages = it.root.stages
-            names = [s[0] for s in stages]
-            w = want if result_all else [x for x in want if x != "calculate_all"]
-            ctx.decide("R01.2", f, f.node, base + ":stages", f"stages run in the order {w}", names == w, {"got": names})
-            by = {s[0]: s for s in stages}
-            # crop from both arrays, applied to the copies handed to the stages
-            if "crop" in by:
-                cargs = list(by["crop"][1]) + list(by["crop"][2].values())
-                sides = sorted(a.side for a in cargs if isinstance(a, AArr))
-                ctx.decide("R01.2", f, by["crop"][3], base + ":crop", "the whole-pair crop is computed from both the prediction and the reference", sides == ["PRED", "REF"], {"from": sides})
-            first = next((s for s in stages if s[0] in ("approximate", "match", "evaluate")), None)
-            if first:
-                p0 = first[1][0] if first[1] else None
-                ok = isinstance(p0, Obj) and p0.cls.name == cls
-                det = {}
-                if ok:
-                    pa, ra = p0.attrs.get("_prediction_arr"), p0.attrs.get("_reference_arr")
-                    ok = isinstance(pa, AArr) and isinstance(ra, AArr) and pa.side == "PRED" and ra.side == "REF" and getattr(pa, "cropped", False) and getattr(ra, "cropped", False)
-                    det = {"prediction": repr(pa), "reference": repr(ra)}
-                ctx.decide("R01.2", f, first[3], base + ":first-stage-input", "the first stage receives the cropped input pair, uncrossed", ok, det)
-            # chain: each stage receives the output of its predecessor
-            chain = [s for s in stages if s[0] in ("approximate", "match", "evaluate")]
-            for prev, cur in zip(chain, chain[1:]):
-                p = cur[1][0] if cur[1] else None
-                tag = {"approximate": "approximated", "match": "matched"}[prev[0]]
-                ok = isinstance(p, Obj) and getattr(p.attrs.get("_prediction_arr"), "stage", None) == tag
-                ctx.decide("R01.2", f, cur[3], base + f":{cur[0]}-input", f"{cur[0]} receives the pair produced by {prev[0]}", ok, None)
-            if "approximate" in by:
-                ctx.decide("R01.2", f, by["approximate"][3], base + ":approximator", "the configured instance approximator is used", any(isinstance(a, Obj) and a.attrs.get("_tag") == "APPROX" for a in by["approximate"][1]), None, nontrivial=False)
-            if "match" in by:
-                ctx.decide("R01.2", f, by["match"][3], base + ":matcher", "the configured instance matcher is used", any(isinstance(a, Obj) and a.attrs.get("_tag") == "MATCHER" for a in by["match"][1]), None, nontrivial=False)
-            if "evaluate" in by:
-                kw = dict(by["evaluate"][2])
-                ev = prog.func("instance_evaluator:evaluate_matched_instance")
-                for i, a in enumerate(by["evaluate"][1]):
-                    kw[ev.call_params[i].name] = a
-                ctx.decide("R01.2", f, by["evaluate"][3], base + ":evaluate:metrics", "instance evaluation receives the instance metrics", kw.get("eval_metrics") is it.root.P_instance_metrics, {"got": repr(kw.get("eval_metrics"))[:80]})
-                ctx.decide("R01.2", f, by["evaluate"][3], base + ":evaluate:decision", "instance evaluation receives the decision metric and threshold", kw.get("decision_metric") == Sym("P_decision_metric") and kw.get("decision_threshold") == Sym("P_decision_threshold"), {"metric": repr(kw.get("decision_metric")), "threshold": repr(kw.get("decision_threshold"))})
-            if "result" in by:
-                kw = dict(by["result"][2])
-                rinit = prog.cls("panoptica_result:PanopticaResult").lookup("__init__")
-                for i, a in enumerate(by["result"][1]):
-                    kw[rinit.call_params[i].name] = a
-                want_kw = {"reference_arr": Sym("E_REF"), "prediction_arr": Sym("E_PRED"), "num_pred_instances": Sym("E_NPRED"), "num_ref_instances": Sym("E_NREF"), "tp": Sym("E_TP"), "list_metrics": Sym("E_LISTS"), "edge_case_handler": Sym("P_edge_case_handler")}
-                for k, v in want_kw.items():
-                    ctx.decide("R01.2", f, by["result"][3], base + ":result:" + k, f"result field {k} is the evaluated pair's / configuration's {k}", kw.get(k) == v, {"got": repr(kw.get(k))}, nontrivial=k in ("reference_arr", "prediction_arr", "num_pred_instances", "num_ref_instances"))
-                ctx.decide("R01.2", f, by["result"][3], base + ":result:global_metrics", "the result receives the global metric selection", kw.get("global_metrics") is it.root.P_global_metrics, None)
-            rv = out.value
-            ctx.decide("R01.2", f, out.node, base + ":return", "the pipeline returns (result, intermediate steps)", isinstance(rv, tuple) and len(rv) == 2 and isinstance(rv[0], Obj) and rv[0].attrs.get("_tag") == "RESULT", {"got": repr(rv)[:120]}, nontrivial=False)
-            bad = [(n, b) for (n, b, idx, v, fresh) in it.root.stores if not fresh]
-            ctx.decide("R01.2", f, f.node, base + ":no-mutation", "no in-place store reaches the input arrays", not bad, None, nontrivial=False)
+        for mc, ac in stage_classes:
+            for result_all in ((True, False) if mc is None and ac is None else (True,)):
+                f, all_runs = run_pipeline(prog, cls, result_all=result_all, matcher_cls=mc, approximator_cls=ac)
+                base0 = f"{f.qual}:input={cls},result_all={result_all}" + (f",matcher={mc.name}" if mc else "") + (f",approximator={ac.name}" if ac else "")
+                foreign = [norm(d[0]) for o, _ in all_runs for d in o.decisions if isinstance(d[0], ast.AST) and not (isinstance(d[1], Unknown) and d[1].tag.startswith("stage-config:")) and not ({n.id for n in ast.walk(d[0]) if isinstance(n, ast.Name)} & {"instance_matcher", "instance_approximator"})]
+                if foreign:
+                    ctx.undecided("R01.2", f, f.node, base0, f"pipeline splits on {foreign[:3]}")
+                    continue
+                for out, (it, pair) in all_runs:
+                    # the pipeline is the same for every concrete matcher / approximator whatever
+                    # their configuration: a path that depends on it is checked like any other
+                    dtxt = "; ".join(f"{norm(nd) if isinstance(nd, ast.AST) else '?'}={d}" for nd, v, d in out.decisions)
+                    _check_pipeline_run(ctx, prog, f, base0 + (f"[{dtxt}]" if dtxt else ""), out, it, pair, cls, want, result_all)
     # missing stage objects are rejected, not skipped
     for cls, kw in (("SemanticPair", {"approximator": False}), ("UnmatchedInstancePair", {"matcher": False})):
         f, runs = run_pipeline(prog, cls, **kw)
@@ -123,6 +135,10 @@ def check(ctx: Ctx):
 
     c03._guarded(ctx, "R10.3", c10.check_crop_mask)
     c03._guarded(ctx, "R05.6", c05.check_semantic_dtype)
+    c03._guarded(ctx, "R05.4", c05.fitting_uint_table)
+    c03._guarded(ctx, "R05.5", c05.check_stateless)
+    c03._guarded(ctx, "R10.2", c10.check_bbox)
+    c03._guarded(ctx, "R10.1", c10.check_crop_data)
     c04.check_chained_replacement(ctx)
     c03._guarded(ctx, "R04.2", c04.check_relabel)
     c07.check_no_wraparound(ctx)
@@ -132,6 +148,12 @@ def check(ctx: Ctx):
     c03._guarded(ctx, "R08.5", c08.check_result_constructor)
     c03._guarded(ctx, "R02.4", c02.check_reducers)
     c03._guarded(ctx, "R02.5", c02.check_counting)
+    # results of later evaluations (another group, a flipped copy, the exchanged pair, a second
+    # threshold) are only meaningful if no step writes into the caller's arrays (R15.8)
+    from . import c15 as _c15
+    from . import c03 as _c03
+
+    _c03._guarded(ctx, "R15.8", _c15.check_param_aliasing)
 
 
 _E = "panoptica/panoptica_evaluator.py"
